@@ -1,0 +1,8 @@
+//go:build verif
+
+package jobconfigcontroller
+
+import "k8s.io/client-go/util/workqueue"
+
+// VerifSetQueue replaces the workqueue of the Context.
+func (c *Context) VerifSetQueue(q workqueue.RateLimitingInterface) { c.queue = q }
